@@ -50,6 +50,8 @@ def main(run: common.Run):
     ]
     only = set(run.args.only.split(",")) if run.args.only else None
     base = families.programs(run.seed, n, tier, only=only, c02=True)
+    if not only or "c09" in only:
+        base += [p for p in families.specials_c09() if "symbolic-target" in p.name or "write-after" in p.name]
     plist = []
     for sname, script in scripts(run.seed, tier):
         for p in base:
